@@ -82,3 +82,8 @@ pub const C_OPEN: i64 = 32;
 pub const C_UNLINK: i64 = 64;
 pub const C_MKDIR: i64 = 128;
 pub const C_FSYNC_DIR: i64 = 256;
+pub const CMD_TRACE_CLASS_AT: i64 = 17;
+pub const CMD_TRACE_LEN: i64 = 18;
+pub const CMD_TRACE_CLEAR: i64 = 19;
+pub const C_AFTER_SLOT0: i64 = 0x1000;
+pub const C_ALL: i64 = 0x17f; // write|fsync|fdatasync|ftruncate|rename|open|unlink|fsync_dir (no mkdir)
